@@ -63,7 +63,7 @@ func topFrame(stack string, withLine bool) string {
 
 // shape is what the classifier predicates may look at besides the verdict.
 type shape struct {
-	Fault   string   // fault family label ("" for byte-level inputs)
+	Fault   string // fault family label ("" for byte-level inputs)
 	Arg     string
 	KeyPath []string // pointer tokens of the faulted place in the base document
 }
@@ -252,6 +252,65 @@ func referrers(tree *node, a applied) [][]int {
 	return out
 }
 
+// resolveTokens follows pointer tokens to an index path.
+func resolveTokens(root *node, tokens []string) ([]int, bool) {
+	var path []int
+	n := root
+outer:
+	for _, t := range tokens {
+		switch n.K {
+		case kMap:
+			for i, k := range n.Keys {
+				if k == t {
+					path = append(path, i)
+					n = n.Kids[i]
+					continue outer
+				}
+			}
+			return nil, false
+		case kSeq:
+			i, err := strconv.Atoi(t)
+			if err != nil || i < 0 || i >= len(n.Kids) {
+				return nil, false
+			}
+			path = append(path, i)
+			n = n.Kids[i]
+		default:
+			return nil, false
+		}
+	}
+	return path, true
+}
+
+// referencedFrom lists the subtrees reachable from the subtree at `from`
+// through (chains of) local references.
+func referencedFrom(tree *node, from []int) [][]int {
+	refs := collectRefs(tree)
+	regions := [][]int{from}
+	var out [][]int
+	used := make([]bool, len(refs))
+	for changed := true; changed && len(out) < 64; {
+		changed = false
+		for i, r := range refs {
+			if used[i] {
+				continue
+			}
+			for _, reg := range regions {
+				if isPrefix(reg, r.holder) {
+					used[i] = true
+					if t, ok := resolveTokens(tree, r.target); ok && len(t) > 0 {
+						out = append(out, t)
+						regions = append(regions, t)
+						changed = true
+					}
+					break
+				}
+			}
+		}
+	}
+	return out
+}
+
 func subtreeHasName(n *node, names []string, budget *int) bool {
 	if n == nil || *budget <= 0 {
 		return false
@@ -298,10 +357,19 @@ func attribute(a applied, ix *docIndex, l locInfo) string {
 	if a.Label != "delete" && len(enclosing) > 0 {
 		enclosing = enclosing[:len(enclosing)-1]
 	}
+	best := ""
 	for _, c := range cands {
-		if related(c.Path, a.Fault) {
-			return "chain-or-subtree"
+		switch {
+		case len(c.Path) == len(a.Fault) && isPrefix(c.Path, a.Fault):
+			return "at-fault"
+		case isPrefix(a.Fault, c.Path):
+			best = "inside-fault"
+		case isPrefix(c.Path, a.Fault) && best == "":
+			best = "ancestor-of-fault"
 		}
+	}
+	if best != "" {
+		return best
 	}
 	for _, c := range cands {
 		for _, p := range a.Parts {
@@ -326,6 +394,17 @@ func attribute(a applied, ix *docIndex, l locInfo) string {
 		for _, c := range cands {
 			if related(c.Path, h) || isPrefix(owner, c.Path) {
 				return "referrer"
+			}
+		}
+	}
+	// forward: the enclosing object of the fault (a parameter, a media type, …)
+	// is made of its own members AND of what it references; a combination that
+	// the fault makes invalid may be reported at the referenced part
+	// (explode:null → "invalid schema.type:style:explode" at the $ref'd schema's type)
+	for _, t := range referencedFrom(a.Tree, enclosing) {
+		for _, c := range cands {
+			if isPrefix(t, c.Path) {
+				return "referenced-by-enclosing-object"
 			}
 		}
 	}
